@@ -1,6 +1,6 @@
 (* C06 -- Generated markup is balanced (partial: see MANIFEST level text).  Property theorems only. *)
 From Rimu Require Import Base Unicode Regex RegexAnalysis RegexParse Str Types Tables Guards State Inline Block
-  Frame FrameBlock FrameInst OptionsLemmas MiscLemmas MoreLemmas Plain TableFacts.
+  Frame FrameBlock FrameInst OptionsLemmas MiscLemmas MoreLemmas Plain TableFacts QuoteNest.
 
 (* every tag-bearing template in the generated definition tables (quotes, replacements, line blocks,
    delimited blocks, lists) is balanced, br and img being the only void elements *)
@@ -31,3 +31,15 @@ Print Assumptions C06_list_wrapped.
 
 Example C06_ex : template_balanced $"<a href=""x""><b>t</b><br></a>" = true /\ template_balanced $"<em><b></em></b>" = false.
 Proof. vm_compute. split; reflexivity. Qed.
+
+(* QUOTE TAGS NEST: for every table of quote definitions, text and fuel, the fragments the quotes pass produces are properly
+   nested -- every opening tag of a definition is followed, after a properly nested run, by the closing tag of the same
+   definition; text fragments are escaped later (no raw angle bracket, C03_escape_confined), the content of a non-nesting quote
+   (code) is one opaque fragment.  spans.render runs the pass on one text fragment (the placeholder text) *)
+Theorem C06_quote_tags_nested : forall qs qre n text l, fragQuote n qs qre text = Ok l -> nested qs l.
+Proof. exact fragQuote_nested. Qed.
+Print Assumptions C06_quote_tags_nested.
+
+Theorem C06_quotes_pass_nested : forall qs n text l, fragQuotes n qs [undone text] = Ok l -> nested qs l.
+Proof. exact quotes_pass_nested. Qed.
+Print Assumptions C06_quotes_pass_nested.
